@@ -481,6 +481,107 @@ fn bufreader_exhaustive(r: &mut StdRng, n_streams: u64, rep: &mut Report) {
 }
 
 // ---------------------------------------------------------------- FileMessageReader + real consumers
+/// another consumer of the record codec: the instance-metadata repository (a catalogue file of (service -> file) records and
+/// one record file per service, both read back in 1024-byte chunks at start-up). Written through the public API, reopened,
+/// compared with what was written.
+async fn instance_meta_repo(r: &mut StdRng, n_rounds: u64, dir: &str, rep: &mut Report) -> anyhow::Result<()> {
+    use rnacos::naming::instance_meta_repository::{InstanceMetaDto, InstanceMetaRepository};
+    use rnacos::naming::model::{InstanceShortKey, ServiceKey};
+    for round in 0..n_rounds {
+        let n_services = *pick(r, &[1usize, 2, 7, 14, 15, 16, 23, 40, 97]);
+        let base = format!("{}/imr_{}", dir, round);
+        let _ = std::fs::remove_dir_all(&base);
+        let mut want: HashMap<String, Vec<(String, u32, Vec<(String, String)>)>> = HashMap::new();
+        let mut keys = vec![];
+        {
+            let mut repo = InstanceMetaRepository::new(base.clone()).await?;
+            for si in 0..n_services {
+                let name_len = *pick(r, &[3usize, 20, 60, 61, 62, 63, 64, 120]);
+                let key = ServiceKey::new(
+                    *pick(r, &["", "ns-a", "a-namespace-id-of-ordinary-length"]),
+                    *pick(r, &["DEFAULT_GROUP", "g"]),
+                    &format!("s{}-{}", si, "x".repeat(name_len)),
+                );
+                let n_inst = *pick(r, &[0usize, 1, 3, 12, 40]);
+                let mut recs = vec![];
+                let mut w = vec![];
+                for ii in 0..n_inst {
+                    let mut md = HashMap::new();
+                    let mut mdv = vec![];
+                    for mi in 0..r.gen_range(0..5usize) {
+                        let v = "v".repeat(*pick(r, &[0usize, 1, 30, 200, 1000]));
+                        md.insert(format!("k{}", mi), v.clone());
+                        mdv.push((format!("k{}", mi), v));
+                    }
+                    mdv.sort();
+                    let ip = format!("10.{}.{}.{}", si % 250, ii % 250, r.gen_range(1..250));
+                    recs.push(InstanceMetaDto::new(key.clone(), InstanceShortKey::new(Arc::new(ip.clone()), 8000 + ii as u32), Arc::new(md)));
+                    w.push((ip, 8000 + ii as u32, mdv));
+                }
+                w.sort();
+                repo.update_metadata(&key, recs).await?;
+                want.insert(format!("{}|{}|{}", key.namespace_id, key.group_name, key.service_name), w);
+                keys.push(key);
+            }
+        }
+        let catalogue_len = std::fs::metadata(format!("{}/file_map", base)).map(|m| m.len()).unwrap_or(0);
+        let tail = if catalogue_len % 1024 == 0 { "chunk-aligned" } else if catalogue_len < 1024 { "one-short-chunk" } else { "short-last-chunk" };
+        rep.evaluations += 1;
+        let witness = json!({"services": n_services, "catalogue_bytes": catalogue_len});
+        let repo = match guarded_async(InstanceMetaRepository::new(base.clone())).await {
+            Ok(Ok(x)) => x,
+            Ok(Err(e)) => {
+                rep.violation(format!("instance-meta-repository/reopen-failed/{}", tail), json!({"error": e.to_string(), "case": witness}));
+                continue;
+            }
+            Err(p) => {
+                rep.violation(format!("instance-meta-repository/panic/{}", tail), json!({"panic": p, "case": witness}));
+                continue;
+            }
+        };
+        let mut listed: Vec<String> = repo.list_services().iter().map(|k| format!("{}|{}|{}", k.namespace_id, k.group_name, k.service_name)).collect();
+        listed.sort();
+        let mut expected: Vec<String> = want.keys().cloned().collect();
+        expected.sort();
+        if listed != expected {
+            rep.violation(format!("instance-meta-repository/catalogue-differs-after-reopen/{}", tail),
+                json!({"case": witness, "expected_services": expected.len(), "listed_services": listed.len(), "first_unexpected": listed.iter().find(|x| !expected.contains(x))}));
+            continue;
+        }
+        let mut bad = None;
+        for key in &keys {
+            let got = repo.get_metadata(key).await?;
+            let mut g: Vec<(String, u32, Vec<(String, String)>)> = got.iter().map(|d| {
+                let mut m: Vec<(String, String)> = d.metadata.iter().map(|(a, b)| (a.clone(), b.clone())).collect();
+                m.sort();
+                (d.instance_key.ip.as_ref().clone(), d.instance_key.port, m)
+            }).collect();
+            g.sort();
+            let name = format!("{}|{}|{}", key.namespace_id, key.group_name, key.service_name);
+            if Some(&g) != want.get(&name) {
+                let wl = want.get(&name).map(|x| x.len());
+                bad = Some((name, g.len(), wl));
+                break;
+            }
+        }
+        if let Some((name, g, w)) = bad {
+            rep.violation(format!("instance-meta-repository/records-differ-after-reopen/{}", tail), json!({"case": witness, "service": name, "got_records": g, "want_records": w}));
+        } else {
+            rep.shape(format!("instance-meta-repository/{}/services{}", tail, if n_services < 14 { "<14" } else if n_services < 40 { "14-39" } else { ">=40" }));
+        }
+        let _ = std::fs::remove_dir_all(&base);
+    }
+    Ok(())
+}
+
+async fn guarded_async<F: std::future::Future>(f: F) -> Result<F::Output, String> {
+    use futures_util::FutureExt;
+    match std::panic::AssertUnwindSafe(f).catch_unwind().await {
+        Ok(v) => Ok(v),
+        Err(e) => Err(e.downcast_ref::<String>().cloned().or_else(|| e.downcast_ref::<&str>().map(|s| s.to_string())).unwrap_or_else(|| "panic".into())),
+    }
+}
+
 async fn file_reader(r: &mut StdRng, n_streams: u64, dir: &str, big: bool, rep: &mut Report) -> anyhow::Result<()> {
     for si in 0..n_streams {
         let mut st = gen_stream(r, 10, true);
@@ -711,6 +812,7 @@ pub fn run(args: &Args) -> anyhow::Result<()> {
         file_reader(&mut r, 60 * scale, &dir, big, &mut rep).await?;
         snapshot_roundtrip(&mut r, 60 * scale, &dir, &mut rep).await?;
         log_roundtrip(&mut r, 30 * scale, &dir, &mut rep).await?;
+        instance_meta_repo(&mut r, 6 * scale, &dir, &mut rep).await?;
         Ok::<(), anyhow::Error>(())
     })?;
     rep.write(args)
